@@ -11,7 +11,7 @@ ID = "C02"
 RULE = (
     "case = history of 1..40 operations over 1..2 buckets drawn with per-case weights from insert, insert_many (0..6), upsert_many (bulk list mixing id-less "
     "events with events carrying distinct live ids of that bucket), replace(live id), replace_last (non-empty bucket), delete(live id | never-issued id); event "
-    "instants from a 12-slot grid and durations from {0,1,2,3 s} so equal timestamps, equal end instants and zero-length events are frequent; data from {A,B,C} "
+    "instants from a 12-slot grid and durations from {0,1,2,3 s} (occasionally 1 d, 25 h, 30 d) so equal timestamps, equal end instants and zero-length events are frequent; data from {A,B,C} "
     "plus occasional rich JSON. The same history runs on memory, sqlite and peewee. Oracle: reference list model per bucket with learnt ids; after EVERY "
     "operation get(-1) as a multiset of (id, instant, duration, data) == model, ids distinct, get_by_id agrees for every live id and is None for dead / foreign "
     "ids, get_eventcount() == model size; replace_last must rewrite exactly the event a limit-1 read returned immediately before; id-erased contents agree "
@@ -36,7 +36,7 @@ def _spec():
     return st.fixed_dictionaries(
         {
             "slot": st.integers(0, 11),
-            "dur_s": st.sampled_from([0, 0, 1, 1, 2, 3]),
+            "dur_s": st.sampled_from([0, 0, 1, 1, 2, 3, 0, 1, 2, 3, 86400, 90000, 30 * 86400]),
             "sub_us": st.sampled_from([0, 0, 0, 1000, 500000]),
             "data": st.one_of(st.sampled_from([{"k": "A"}, {"k": "B"}, {"k": "C"}]), data),
         }
